@@ -216,6 +216,15 @@ def correspondence(rep, rng, tier):
         sm.append(('shared%d' % gb_, sp * q, sp))
       sp, q, _ = gen_rsa.shared_smooth(rng, 2 * bits, gbits=64, smooth_bits=10, q_smooth=True)
       sm.append(('sharedboth', sp * q, sp))
+    if bound is None:
+      # the model's square-and-multiply halves the 1.5 Mbit exponent at every step (quadratic,
+      # ~20 s per key): one key of each family is enough to tie the default product
+      seen_, few_ = set(), []
+      for t_ in sm:
+        if t_[0] not in seen_ and t_[1].bit_length() <= 330:
+          seen_.add(t_[0]); few_.append(t_)
+      sm = [t_ for t_ in few_ if t_[0] in ('onesmooth', 'bothsmooth', 'healthy', 'shared58', 'shared60',
+                                          'sharedboth', 'prime')]
     for tag, n, sp in sm:
       v = art.fmt_verdict(chk, n)
 
